@@ -158,7 +158,10 @@ CHECKS = {
              "TLC validates the client's reply and the database state read by an uncached observer against the Storage "
              "contract on the single shared state - a cache is correct iff it is invisible.",
         note="Trusted: TLC, the projection shared with C01. Clients interleave at call granularity (threads inside one "
-             "client: C03). Known findings K2 (SQLite id reuse) and K5 (name/directions cached for ever) matched by shape.",
+             "client: C03). Families: random histories, point reads (9 kinds) before bulk reads, a finished template before "
+             "the first sync, a foreign delete followed by a local create. Known findings K2 (SQLite id reuse; explains only "
+             "stale answers of clients OTHER than the one that re-created the id) and K5 (name/directions cached for ever) "
+             "matched by shape.",
         technique="TLA+ cache-algorithm spec model-checked with TLC; multi-client histories on real cached/proxied "
                   "storages validated by TLC against the storage contract (trace validation)",
         ref="DESIGN.md section 4 C08, section 3.5",
@@ -204,7 +207,8 @@ CHECKS = {
              "compatibility on all pairs, and _SearchSpaceTransform round trips and box points under all eight flag "
              "combinations; about 61 000 events per run, each judged by TLC (DomainTrace) on exact tokens.",
         note="Thin for log-scaled floats (within 4 doubles); stepped floats are on the grid within 1e-8*step, as "
-             "FloatDistribution._contains documents; D14 (exactly-high maps to the double below high) admitted.",
+             "FloatDistribution._contains documents; D14 (exactly-high maps to the double below high) admitted. The extra "
+             "shapes include 1e5-point stepped grids and low ends with more decimals than the step.",
         technique="TLA+ exact-arithmetic oracle model-checked with TLC; real distribution/transform answers validated by "
                   "TLC (trace validation)",
         ref="DESIGN.md section 4 C11, section 3.7",
@@ -249,7 +253,9 @@ CHECKS = {
              "run is validated by TLC: each evaluated combination is a leaf, none twice, optimize stopped by itself exactly "
              "when everything was visited.",
         note="Trusted: TLC, the scripted objective that turns a tree into suggest calls. Mid-trial failures (between two "
-             "suggests) and resume-with-another-seed are separate families with known findings K3, K3b, K8.",
+             "suggests) and resume-with-another-seed are separate families with known findings K3, K3b, K8. NaN and None occur "
+             "among categorical choices (grids and trees), a quarter of the brute-force runs start next to a RUNNING trial "
+             "without parameters left by a dead worker.",
         technique="TLA+ property- and algorithm-level specs model-checked with TLC (safety + liveness); real sampler runs "
                   "validated by TLC (trace validation)",
         ref="DESIGN.md section 4 C14, section 3.8",
@@ -277,7 +283,9 @@ CHECKS = {
              "-simulate behaviours and a seeded generator; every should_prune decision is validated by TLC; the Hyperband "
              "bracket is checked to be a function of (study name, trial number) by a memo action.",
         note="Trusted: TLC, small-integer value tokens. Start-up trials are counted as all finished trials (docstring); "
-             "n_min_trials is not part of the property; negative controls (lenient gates, tie handling) stay silent.",
+             "n_min_trials is not part of the property; negative controls (lenient gates, tie handling) stay silent. Threshold "
+             "studies report +-inf and use 0 as a bound; brackets are also observed with ONE pruner object serving studies of "
+             "different storages.",
         technique="TLA+ envelope spec + algorithm models model-checked with TLC; played studies validated by TLC "
                   "(trace validation)",
         ref="DESIGN.md section 4 C16, section 3.8",
@@ -290,7 +298,8 @@ CHECKS = {
              "ask/suggest/tell histories per run (TLC random walks + seeded generator, enqueued trials, out-of-order "
              "finishes) with long-lived calculators; every Calculate result validated by TLC.",
         note="Trusted: TLC, the projection of distributions to tokens. RUNNING-created-while-WAITING-exists is reproduced "
-             "through the storage API. Cursor value/group order agreement is informational (drift).",
+             "through the storage API. Cursor value/group order agreement is informational (drift). The categorical "
+             "distribution contains NaN (a new object every time it is built).",
         technique="TLA+ refinement (cursor algorithm vs from-scratch) model-checked with TLC; real calculator results "
                   "validated by TLC (trace validation)",
         ref="DESIGN.md section 4 C17, section 3.8",
@@ -306,8 +315,10 @@ CHECKS = {
              "interleaved per SQL statement with one possibly dying mid-sweep (its connection closed, as the OS would); "
              "TLC validates every execution against HeartbeatTrace.",
         note="Trusted: TLC, the instrumentation of set_trial_state_values/the callback on the storage object (outside the "
-             "repository). RDB = SQLite. Known finding K1 (double FAIL across connections) matched by shape on the "
-             "concurrent family only.",
+             "repository). RDB = SQLite. Stale heartbeat rows are written by SQL, fresh ones by the real record_heartbeat "
+             "(insert and update path) under time zones other than UTC; every second execution deletes a study with heartbeats "
+             "first; a zombie worker writes to the stale trial while the sweeper is preempted. Known finding K1 (double FAIL "
+             "across connections) matched by shape on the concurrent family only.",
         technique="TLA+ algorithm spec model-checked with TLC (incl. a failing SQLite variant); real sweeps, sequential "
                   "and scheduled per SQL statement, validated by TLC (trace validation)",
         ref="DESIGN.md section 4 C19, section 3.6",
